@@ -64,6 +64,27 @@ CLAIMED = {
              "un-flushed user-space buffer lost); power-failure reordering is "
              "not modelled. A missing cache file needs no warning (documented "
              "as allowed); malformed/unreadable files need one."),
+    "C12": dict(
+        category="fault_enumeration", design_ref="DESIGN.md 3/C12",
+        technique="deterministic simulation with I/O fault enumeration: every "
+                  "numbered open/read/write/close/tempfile step of "
+                  "compress/decompress gets each applicable single fault once "
+                  "per sampled history; debris / target / round-trip oracles",
+        text="Seeded histories of compress()/decompress() blocks (4 formats "
+             "via suffix or fmt=, odd names, tmpdir/target arguments, contents "
+             "around the copy chunk) run on the real gzip/bz2/lzma/zipfile "
+             "through fault-injecting wrappers; every I/O step is failed once "
+             "with EIO/ENOSPC/short read, the caller's body raises at each "
+             "position, archives are truncated/bit-flipped. After every "
+             "execution the temp directories must be empty, the decompressed "
+             "copy gone, and a body exception must neither create nor change "
+             "the target. Fault placement is exhaustive per history; histories "
+             "are sampled.",
+        note="Faults are injected only at calls typhon.files.utils issues and "
+             "on file objects it hands to the compression libraries; target "
+             "atomicity when the compression step itself fails is not "
+             "demanded; failing unlink/rmtree is not injected; fd leaks are "
+             "not observed."),
 }
 
 NOT_APPLICABLE = {
